@@ -135,6 +135,8 @@ class MasterWorld:
         self.cellmonitors = cfg.get('cellmonitors', [])
         self.down_since_L = {}
         self.marked = set()
+        self.late = False
+        self.undelivered = []   # [(path, children)] captured, not yet processed
         self.put_log = []
         self.srv_variant = {n: 0 for n, s in cfg['servers'].items()
                             if s.get('initial', True)}
@@ -201,6 +203,7 @@ class MasterWorld:
     def start_master(self, first=False, cycle=True):
         """Body of Master.run_loop up to (and including) the first loop turn."""
         m = self.new_master()
+        self.undelivered = []
         m.load_model()
         self._init_schedule()
         self.after_cycle('init_schedule')
@@ -243,19 +246,47 @@ class MasterWorld:
             mon(self, kind)
 
     def deliver(self, *paths):
-        """Deliver the children watches of the given paths, in that order."""
+        """Deliver the children watches of the given paths, in that order.
+
+        With `self.late` set (deviation 'L'), the children lists are captured
+        now - as the watcher thread would when the notification arrives - but
+        processed only before the next delivery: the master works through its
+        queue in order, so a stale list is processed after later changes
+        reached ZooKeeper."""
+        if self.late:
+            for path in paths:
+                # one outstanding notification per path: the watcher blocks
+                # until the master has processed it
+                if not any(p == path for p, _k in self.undelivered):
+                    self.undelivered.append((path, list(self.children(path))))
+            return
+        queue, self.undelivered = self.undelivered, []
+        stale = [p for p, _k in queue]
+        for path in stale + [p for p in paths if p not in stale]:
+            # after a stale list is processed the watch re-arms and reports
+            # the current children if they differ
+            captured = [k for p, k in queue if p == path]
+            current = self.children(path) if (
+                path in paths or captured) else None
+            for kids in captured:
+                self._process(path, kids)
+                current = self.children(path)
+                if current == kids:
+                    current = None
+            if current is not None:
+                self._process(path, current)
+
+    def _process(self, path, kids):
         m = self.master
-        for path in paths:
-            kids = self.children(path)
-            if path == z.SCHEDULED:
-                m.process_scheduled(kids)
-            elif path == z.EVENTS:
-                m.process_events(kids)
-            elif path == z.SERVER_PRESENCE:
-                m.process_server_presence(kids)
-            elif path == z.BLACKEDOUT_SERVERS:
-                m.process_blackedout_servers(kids)
-            m.up_to_date = False
+        if path == z.SCHEDULED:
+            m.process_scheduled(kids)
+        elif path == z.EVENTS:
+            m.process_events(kids)
+        elif path == z.SERVER_PRESENCE:
+            m.process_server_presence(kids)
+        elif path == z.BLACKEDOUT_SERVERS:
+            m.process_blackedout_servers(kids)
+        m.up_to_date = False
 
     # -- events -------------------------------------------------------------
     def apply(self, ev):
@@ -263,6 +294,9 @@ class MasterWorld:
             raise AssertionError('world is dead')
         CLOCK.next_event()
         body, cyc = ev[:-1], ev[-1]
+        self.late = (cyc == 'L')
+        if self.late:
+            cyc = False
         kind = body[0]
         cfg = self.cfg
         admin = self.admin
@@ -518,9 +552,12 @@ class MasterWorld:
                 cur = zkutils.get_default(self.admin, z.BLACKEDOUT_APPS) or []
                 if cur == cfg['blacklists'][e[1]]:
                     continue
-            for cyc in (True, False):
-                if not cyc and (kind == 'noop'
-                                or not cfg.get('allow_nocycle', True)):
+            for cyc in (True, False, 'L'):
+                if cyc is False and (kind == 'noop'
+                                     or not cfg.get('allow_nocycle', True)):
+                    continue
+                if cyc == 'L' and (not cfg.get('allow_late', False) or kind in (
+                        'noop', 'tick', 'restart')):
                     continue
                 menu.append(tuple(e) + (cyc,))
         return menu
@@ -585,5 +622,7 @@ class MasterWorld:
              if tree.find(z.BLACKEDOUT_APPS) else None),
         )
         m = self.master
-        return (zk, cellworld.canon_cell(m.cell, self.tmpl_of), m.up_to_date,
+        und = tuple((p, tuple(ren(k) if '#' in k else k for k in kids))
+                    for p, kids in self.undelivered)
+        return (zk, und, cellworld.canon_cell(m.cell, self.tmpl_of), m.up_to_date,
                 tuple(sorted(m.servers)), tuple(m.apps_blacklist), CLOCK.L)
